@@ -919,6 +919,50 @@ def shape_sglob_dirs():
     }
 
 
+def shape_glob_sub_slash():
+    """A named wildcard whose substitution spans a directory separator; the matches (inside a static tree,
+    used by no step as input) have no file node, so the pattern's stored regular expression is all that
+    makes a new match relevant to the watcher."""
+    return {
+        "name": "glob_sub_slash",
+        "sources": {"plan.py": ["v1"], "src/a/m1.py": ["a", "b"], "src/a/m2.py": ["a", "b"]},
+        "scripts": {
+            "./plan.py": {
+                "on": "plan.py",
+                "versions": {
+                    "v1": [
+                        ["tree", ["src/"]],
+                        ["glob", "src/${*mod}.py", {"mod": "*/*"}, [["step", "M:{s}", {"out": ["lst/{s}.txt"]}]]],
+                    ]
+                },
+            },
+            "M:m1": GENERIC_WORKER, "M:m2": GENERIC_WORKER, "M:m3": GENERIC_WORKER, "M:m4": GENERIC_WORKER,
+        },
+    }
+
+
+def shape_odd_dir_names():
+    """Static inputs below directories whose names contain characters that are special in GLOB / LIKE."""
+    return {
+        "name": "odd_dir_names",
+        "sources": {"plan.py": ["v1"], "dq?/d1.txt": ["a", "b"], "ds*/d2.txt": ["a", "b"], "d[b]/d3.txt": ["a", "b"], "s1.txt": ["a", "b"]},
+        "scripts": {
+            "./plan.py": {
+                "on": "plan.py",
+                "versions": {
+                    "v1": [
+                        ["static", ["dq?/d1.txt", "ds*/d2.txt", "d[b]/d3.txt", "s1.txt"]],
+                        ["step", "Q1", {"inp": ["dq?/d1.txt"], "out": ["q1.txt"]}],
+                        ["step", "Q2", {"inp": ["ds*/d2.txt", "s1.txt"], "out": ["q2.txt"]}],
+                        ["step", "Q3", {"inp": ["d[b]/d3.txt"], "out": ["q3.txt"]}],
+                    ]
+                },
+            },
+            "Q1": GENERIC_WORKER, "Q2": GENERIC_WORKER, "Q3": GENERIC_WORKER,
+        },
+    }
+
+
 def shape_resources():
     return {
         "name": "resources",
@@ -976,6 +1020,8 @@ SHAPES = {
         shape_warning_optional_revert,
         shape_fail_after_write,
         shape_sglob_dirs,
+        shape_glob_sub_slash,
+        shape_odd_dir_names,
         shape_resources,
     )
 }
